@@ -8,6 +8,17 @@ use verif_replay::*;
 
 static mut COUNT: u64 = 0;
 
+/// a reader that delivers at most one byte per `read` call
+struct Trickle<'a>(&'a [u8]);
+impl std::io::Read for Trickle<'_> {
+    fn read(&mut self, buf: &mut [u8]) -> std::io::Result<usize> {
+        if buf.is_empty() || self.0.is_empty() { return Ok(0); }
+        buf[0] = self.0[0];
+        self.0 = &self.0[1..];
+        Ok(1)
+    }
+}
+
 fn rt<T: Encode + Decode + PartialEq + Debug>(kind: &str, v: &T) {
     unsafe { COUNT += 1 };
     let plugin = Plugin::new();
@@ -20,6 +31,20 @@ fn rt<T: Encode + Decode + PartialEq + Debug>(kind: &str, v: &T) {
     ext.extend_from_slice(&[0xA5, 0x5A]);
     let mut dec = qbice_serialize::PostcardDecoder::new(&ext[..]);
     let r: std::io::Result<T> = qbice_serialize::Decoder::decode(&mut dec, &plugin);
+    // the same bytes through a reader that hands out ONE byte per read() call (a pipe / socket / chained buffers): a decoder
+    // must not depend on how the underlying stream chunks its data
+    {
+        let mut tdec = qbice_serialize::PostcardDecoder::new(Trickle(&ext[..]));
+        let tr: std::io::Result<T> = qbice_serialize::Decoder::decode(&mut tdec, &plugin);
+        match tr {
+            Ok(w) => {
+                if &w != v { report_found(kind, &format!("{v:?}"), &format!("{w:?} when the reader delivers one byte per call (bytes {bytes:?})"), &format!("{v:?}")); }
+                let rest = tdec.into_inner().0;
+                if rest != &[0xA5u8, 0x5A][..] { report_found(kind, &format!("{v:?}"), &format!("decoder left {} bytes when the reader delivers one byte per call, bytes {bytes:?}", rest.len()), "exactly the 2 sentinel bytes"); }
+            }
+            Err(e) => report_found(kind, &format!("{v:?}"), &format!("decode error {e} when the reader delivers one byte per call (bytes {bytes:?})"), "Ok"),
+        }
+    }
     match r {
         Ok(w) => {
             if &w != v {
